@@ -7,6 +7,7 @@
    l for the doc strings [docs]. *)
 From Coq Require Import List String Permutation.
 From TS Require Import Model.Str Model.Outcome Model.Unicode Model.Syntax Model.Attrs Model.Types Model.Parse Model.Rename.
+From TS Require Import Model.TopsortAlgo Model.Topsort Model.Lang.Common.
 From TS Require Import Model.Lang.TypeScript Model.Lang.Kotlin Model.Lang.Swift Model.Lang.Scala Model.Lang.Go Model.Lang.Python.
 From TS Require Import Spec.Lexers Spec.C15Spec Spec.C15Render.
 From TS Require Proofs.C15 Proofs.C15_Render Proofs.C15_Kotlin Proofs.C15_Go Proofs.C15_Swift Proofs.C15_Python Proofs.C15_TypeScript.
@@ -304,3 +305,29 @@ Theorem C15_kt_item : forall (cfg : kt_config),
     forallb safe_kt (c15_item_docs_helpers_first it).
 Proof. exact Proofs.C15_Kotlin.C15_kt_item. Qed.
 Print Assumptions C15_kt_item.
+
+(* ---- TypeScript, WHOLE FILES (ts_generate: version header, the items in topological order with the printer
+   state threaded through them, the reviver / replacer trailer), no neutrality hypothesis.  For every parsed
+   program whose items are plain (as above), whose field keys contain no double quote, backslash or line
+   terminator (c15_ts_item_keys_ok: the trailer prints the keys of Date-typed fields raw between double quotes),
+   with plain type_mappings targets and a version string without `*` (it is printed inside a block comment):
+   the generated file is code parts and comment fragments whose doc strings are the doc strings of the items in
+   output order (a permutation of the program's items), followed - when the trailer is printed - by the four
+   comment lines typeshare writes itself; and the file is contained iff every doc string of the program is
+   safe_ts.  (The unrestricted statement is false: C15_ts_refuted.) ---- *)
+Theorem C15_ts_file : forall (uc : unicode) (cfg : ts_config),
+  c15_mappings_plain C15ts (ts_type_mappings cfg) = true ->
+  forall pd text,
+  c15_no_star (ts_version cfg) = true ->
+  forallb (c15_item_plain C15ts TypeScript (fun n => str_to_uppercase uc (to_snake_case uc n))) (items_of pd) = true ->
+  forallb c15_ts_item_keys_ok (items_of pd) = true ->
+  ts_generate uc cfg pd = Ok text ->
+  exists items trailer parts,
+    topsort (items_of pd) = Ok items /\ Permutation items (items_of pd) /\
+    (trailer = [] \/ trailer = c15_ts_trailer_docs) /\
+    text = text_of (c15_file_pieces C15ts parts) /\
+    docs_of (c15_file_pieces C15ts parts) = flat_map c15_item_docs items ++ trailer /\
+    c15_contained C15ts LCode (mark (c15_file_pieces C15ts parts)) =
+    forallb safe_ts (flat_map c15_item_docs (items_of pd)).
+Proof. exact Proofs.C15_TypeScript.C15_ts_file. Qed.
+Print Assumptions C15_ts_file.
